@@ -533,3 +533,16 @@ func (e *Engine) blockOnChan(ch *Chan) bool {
 }
 
 func (e *Engine) blockOnSelect(fr *frame) bool { return false }
+
+// syncAcqRel models a synchronising operation on an object (sync.Map
+// operations, context cancel/Done): acquire then release on the object's clock.
+func (e *Engine) syncAcqRel(p *Value) {
+	if e.th == nil || !e.job.Threads || p == nil {
+		return
+	}
+	s := e.shadowOf(p)
+	t := e.th.cur
+	t.vc.join(&s.svc)
+	s.svc.join(&t.vc)
+	t.vc[t.id]++
+}
